@@ -83,6 +83,10 @@ class Lab(object):
         self.stalled = False
         idle_rounds = 0
         total = 0
+        # a generator that stalled earlier (waiting for input) is resumed by a later run()
+        for e in (self.client, self.server):
+            if e.state == "stall" and e.gen is not None and (only is None or e.name in only):
+                e.state = "running"
         while True:
             running = [e for e in (self.end(order[0]), self.end(order[1]))
                        if e.state == "running" and (only is None or e.name in only)]
